@@ -4,6 +4,7 @@ Property theorems only (obligations of ./check C03).
 -/
 import LfsModel.PushModel
 import LfsModel.PrePush
+import LfsModel.PushReport
 
 namespace C03
 open Push PushM
@@ -95,5 +96,27 @@ example : PrePush.parse
     [PrePush.line ⟨[40, 100, 41], List.replicate 40 48, [97], [49, 49]⟩,
      [], PrePush.line ⟨[109], [50, 50], [109], [51, 51]⟩]
     = [⟨[109], [50, 50], [109], [51, 51]⟩] := by decide
+
+/-! ### how the hook ends: the refs are updated only when nothing but an explicitly allowed absence went wrong -/
+
+/-- exit 0 exactly when: objects are missing only with the allowance, no other upload error, no
+    verified foreign lock -/
+theorem push_succeeds_iff (o : PushReport.Outcome) :
+    PushReport.ok o = true ↔
+      ((o.missingOrCorrupt = true → o.allowIncomplete = true) ∧ o.otherErrors = false ∧
+       (o.unownedLocks = true → o.verifyLocks = false)) := by
+  cases o with
+  | mk m a e u v => cases m <;> cases a <;> cases e <;> cases u <;> cases v <;> simp [PushReport.ok]
+
+/-- lfs.allowincompletepush excuses absent objects and nothing else: any other upload error fails the
+    push whatever the allowance says -/
+theorem allowance_does_not_excuse_other_errors (o : PushReport.Outcome) (h : o.otherErrors = true) :
+    PushReport.ok o = false := by
+  simp [PushReport.ok, h]
+
+/-- without the allowance a missing object fails the push -/
+theorem missing_object_fails_without_allowance (o : PushReport.Outcome) (hm : o.missingOrCorrupt = true)
+    (ha : o.allowIncomplete = false) : PushReport.ok o = false := by
+  simp [PushReport.ok, hm, ha]
 
 end C03
